@@ -321,6 +321,60 @@ class Body:
             kinds.add(rets[-1][1] if rets else "none")
         return kinds
 
+    def decision_rows(self, start=0, extra_classify=None):
+        """finite decision table of a small function: set of (conditions, result) where conditions is a tuple of
+        (printed discriminant origin, origin, 'eq'|'ne', value(s)) taken on switch edges whose discriminant is a program value
+        (constant switches are folded, drop-flag/tracing switches are ignored) and result describes the value assigned to _0."""
+        def noise(o):
+            s = str(o)
+            return "tracing" in s or o[0] in ("phi", "deep", "unknown", "rv")
+
+        def edge(b, s, t):
+            if t["k"] != "switch":
+                return None
+            o = self.origin(t["discr"])
+            tg = [(int(v), tb) for v, tb in t["targets"]]
+            if o[0] == "const" and o[1] is not None:
+                want = [tb for v, tb in tg if v == o[1]]
+                want = want[0] if want else t["otherwise"]
+                return None if s == want else "infeasible"
+            if noise(o):
+                return None
+            vals = [v for v, tb in tg if tb == s]
+            if vals and s != t["otherwise"]:
+                return ("cond", fmt_origin(o), "eq", tuple(vals))
+            if s == t["otherwise"] and not vals:
+                return ("cond", fmt_origin(o), "ne", tuple(v for v, _tb in tg))
+            return ("cond", fmt_origin(o), "any", tuple(vals))
+
+        def classify(kind, bb, idx, node):
+            if extra_classify is not None:
+                e = extra_classify(kind, bb, idx, node)
+                if e is not None:
+                    return e
+            if kind == "stmt" and node["k"] == "assign" and node["place"]["l"] == 0 and not node["place"]["p"]:
+                rv = node["rv"]
+                if rv["k"] == "agg":
+                    return ("ret", rv.get("vname") or rv["agg"], tuple(fmt_origin(self.origin(x)) for x in rv["ops"]))
+                if rv["k"] == "use":
+                    return ("ret", "use", (fmt_origin(self.origin(rv["x"])),))
+                return ("ret", rv["k"], ())
+            if kind == "term" and node["k"] == "call" and node["dest"]["l"] == 0 and not node["dest"]["p"] and not is_tracing(node):
+                d, rd, ga, fn = callee(node)
+                return ("ret", "call:%s" % (rd or d), tuple(fmt_origin(self.origin(x)) for x in node["args"]))
+            return None
+
+        rows = set()
+        for s in self.event_paths(classify, start=start, edge_classify=edge):
+            if s and s[-1][0] == "unreachable":
+                continue
+            conds = tuple(e for e in s if e[0] == "cond")
+            rets = [e for e in s if e[0] == "ret"]
+            end = s[-1][0] if s else "none"
+            others = tuple(e for e in s if e[0] not in ("cond", "ret", "return", "loop", "diverge", "unreachable", "resume", "terminate"))
+            rows.add((conds, rets[-1] if rets else ("ret", end, ()), others))
+        return rows
+
     def loop_heads(self):
         return {v for (_u, v) in self.back_edges()}
 
@@ -482,7 +536,7 @@ class Body:
         return ("rv", rv["k"])
 
     # ------------------------------------------------------------ path/event summaries
-    def event_paths(self, classify, start=0, limit=4000, stop_at_back_edge=True):
+    def event_paths(self, classify, start=0, limit=4000, stop_at_back_edge=True, edge_classify=None):
         """Set of event sequences (tuples) over all acyclic paths start->Return.
         classify(kind, bb, idx, node) -> event (hashable) or None; kind in 'stmt','term'.
         Back edges end the path with ('loop', target)."""
@@ -523,11 +577,18 @@ class Body:
                 if not ss:
                     out.add(head + (("diverge",),))
                 for s in ss:
+                    ee = ()
+                    if edge_classify is not None:
+                        ev = edge_classify(b, s, t)
+                        if ev == "infeasible":
+                            continue
+                        if ev is not None:
+                            ee = (ev,)
                     if (b, s) in back:
-                        out.add(head + (("loop", s),))
+                        out.add(head + ee + (("loop", s),))
                         continue
                     for tail in go(s):
-                        out.add(head + tail)
+                        out.add(head + ee + tail)
                         if len(out) > limit:
                             raise Undecidable("path set too large in %s" % self.name)
             onstack.discard(b)
